@@ -869,3 +869,30 @@ Proof.
     by (rewrite callx_S, x_rstr_make_none; exact Hmake).
   destruct (xic =? 0); xstep; rewrite Emk; xstep; reflexivity.
 Qed.
+
+(* ------------------------------------------------------------------ a concrete run (used by the Examples of Properties_C13.v) *)
+(* the program's globals, a struct lbuf with two lines, the cells *r *o *len, the pattern string *)
+Definition ex_G : nat := length cglobals.
+Definition ex_lbuf_blk : block := repeat (VInt 0) 64 ++ [VPtr (ex_G + 1) 0; VInt 0; VInt 2; VInt 2] ++ repeat (VInt 0) 7.
+Definition ex_mem (l0 l1 : bytes) (r0 o0 : Z) (kw : bytes) : mem :=
+  cglobals ++ [ex_lbuf_blk; [VPtr (ex_G + 2) 0; VPtr (ex_G + 3) 0]; cstr_block (zb l0); cstr_block (zb l1);
+               [VInt r0]; [VInt o0]; [VUndef]; cstr_block (zb kw)].
+Definition ex_args (dir : Z) : list val :=
+  [VPtr ex_G 0; VPtr (ex_G + 7) 0; VInt dir; VPtr (ex_G + 4) 0; VPtr (ex_G + 5) 0; VPtr (ex_G + 6) 0].
+(* an oracle: rstr_make "compiles" into a struct rstr with rs == NULL (the literal lit, anchored by ^ when lbeg = 1), so the
+   translated rstr_find runs its literal scan; rstr_free frees the two blocks *)
+Definition ex_ext (lbeg : Z) (lit : bytes) : nat -> list val -> mem -> res (val * mem) := fun f args m =>
+  if Nat.eqb f X_rstr_make then
+    match args with
+    | [_; VInt flg] => Ok (VPtr (length m) 0, m ++ [[VInt 0; VPtr (S (length m)) 0; VInt flg; VInt lbeg; VInt 0; VInt 0; VInt 0]; cstr_block (zb lit)])
+    | _ => Err EShape
+    end
+  else if Nat.eqb f X_rstr_free then
+    match args with [VPtr b 0] => Ok (VUndef, upd (upd m b []) (S b) []) | _ => Err EShape end
+  else Err EShape.
+(* the observable result: the value, the three cells, the number of blocks *)
+Definition ex_out (x : res (val * mem)) : res (val * option block * option block * option block * nat) :=
+  match x with
+  | Ok (v, m') => Ok (v, nth_error m' (ex_G + 4)%nat, nth_error m' (ex_G + 5)%nat, nth_error m' (ex_G + 6)%nat, length m')
+  | Err e => Err e
+  end.
